@@ -18,13 +18,22 @@ package main
 //   - UDP may drop datagrams when the socket buffer overflows: the sender keeps at most 48
 //     datagrams unread, and if the kernel still reports drops for the socket the case is
 //     inconclusive (emitted without verdict) rather than a violation.
+// Variant sock = "script": the receiver reads from a scripted net.PacketConn (no kernel, no loss;
+// GenericBatchReader: one datagram per batch) whose datagrams come from many DISTINCT sender
+// addresses: IPv4, IPv6, IPv6 with zone, v4-mapped IPv6, *net.UDPAddr with nil IP, a non-UDP
+// address type, interleaved across batches and reader goroutines.  The model takes the rendered
+// sender as an input; the harness computes it per datagram directly from the address it handed
+// out: net.IP.String() for a *net.UDPAddr (no zone, "<nil>" for a nil IP, dotted quad for
+// v4-mapped), "" (UnknownSource) for any other address type -- what receiver.go's getIP does.
 // A panic on this path cannot be recovered (the goroutines belong to the implementation): the
 // process dies and the driver reports the crash.
 
 import (
 	"bufio"
 	"context"
+	"errors"
 	"fmt"
+	"io"
 	"net"
 	"os"
 	"sort"
@@ -180,17 +189,112 @@ func idOf(name, ns string) string {
 
 const maxUnread = 48
 
+// scriptConn is a net.PacketConn fed by the harness: ReadFrom blocks until a datagram is pushed
+// or the conn is closed, like a socket.
+type scriptConn struct {
+	mu     sync.Mutex
+	q      []scriptDg
+	closed chan struct{}
+	wake   chan struct{}
+	once   sync.Once
+}
+type scriptDg struct {
+	data string
+	addr net.Addr
+}
+
+func newScriptConn() *scriptConn {
+	return &scriptConn{closed: make(chan struct{}), wake: make(chan struct{}, 16)}
+}
+func (c *scriptConn) ReadFrom(b []byte) (int, net.Addr, error) {
+	for {
+		select {
+		case <-c.closed:
+			return 0, nil, errors.New("use of closed network connection")
+		default:
+		}
+		c.mu.Lock()
+		if len(c.q) > 0 {
+			d := c.q[0]
+			c.q = c.q[1:]
+			c.mu.Unlock()
+			return copy(b, d.data), d.addr, nil
+		}
+		c.mu.Unlock()
+		select {
+		case <-c.closed:
+			return 0, nil, errors.New("use of closed network connection")
+		case <-c.wake:
+		}
+	}
+}
+func (c *scriptConn) push(data string, addr net.Addr) {
+	c.mu.Lock()
+	c.q = append(c.q, scriptDg{data, addr})
+	c.mu.Unlock()
+	for i := 0; i < 4; i++ {
+		select {
+		case c.wake <- struct{}{}:
+		default:
+		}
+	}
+}
+func (c *scriptConn) WriteTo(b []byte, addr net.Addr) (int, error) { return len(b), nil }
+func (c *scriptConn) Close() error                                 { c.once.Do(func() { close(c.closed) }); return nil }
+func (c *scriptConn) LocalAddr() net.Addr                          { return &net.UDPAddr{IP: net.IPv4(127, 0, 0, 1), Port: 8125} }
+func (c *scriptConn) SetDeadline(t time.Time) error                { return nil }
+func (c *scriptConn) SetReadDeadline(t time.Time) error            { return nil }
+func (c *scriptConn) SetWriteDeadline(t time.Time) error           { return nil }
+
+// senderOf builds the sender address of a spec "kind:text" and the Source the receiver has to
+// attach to that datagram.
+func senderOf(spec string, i int) (net.Addr, string) {
+	kind, text := spec, ""
+	if j := strings.IndexByte(spec, '='); j >= 0 {
+		kind, text = spec[:j], spec[j+1:]
+	}
+	switch kind {
+	case "udp": // IPv4 or IPv6 literal, optional %zone
+		zone := ""
+		if j := strings.IndexByte(text, '%'); j >= 0 {
+			text, zone = text[:j], text[j+1:]
+		}
+		ip := net.ParseIP(text)
+		if ip4 := ip.To4(); ip4 != nil && !strings.Contains(text, ":") {
+			ip = ip4 // 4-byte form, as the kernel delivers it on an IPv4 socket
+		}
+		return &net.UDPAddr{IP: ip, Port: 1000 + i%5000, Zone: zone}, ip.String()
+	case "mapped": // v4-mapped IPv6, 16-byte form (dual-stack socket)
+		ip := net.ParseIP(text).To16()
+		return &net.UDPAddr{IP: ip, Port: 1000 + i%5000}, ip.String()
+	case "nilip":
+		var ip net.IP
+		return &net.UDPAddr{IP: nil, Port: 7}, ip.String()
+	case "ipaddr": // not a *net.UDPAddr: getIP's fallback
+		return &net.IPAddr{IP: net.ParseIP(text)}, ""
+	case "unix":
+		return &net.UnixAddr{Name: text, Net: "unixgram"}, ""
+	}
+	return &net.UDPAddr{IP: net.IPv4(10, 9, 8, 7), Port: 1}, "10.9.8.7"
+}
+
 func runRecv(em *hlib.Emitter, in input) {
 	bursts := assemble(in)
 	c := hlib.Case{Input: in, Class: fmt.Sprintf("recv/readers%d/parsers%d/batch<=%d", in.Readers, in.Parsers, (in.Batch/10+1)*10)}
-	var msgs []string
+	var msgs, froms []string
 	burstEnd := map[int]bool{}
 	for _, b := range bursts {
 		for _, d := range b {
 			msgs = append(msgs, string(d.msg))
+			froms = append(froms, d.from)
 		}
 		burstEnd[len(msgs)] = true
 	}
+	scripted := in.Sock == "script"
+	if scripted {
+		c.Class = "recv-script" + strings.TrimPrefix(c.Class, "recv")
+	}
+	logrus.SetOutput(io.Discard) // getIP logs an error for a non-UDP sender address on the global logger
 	nlines := 0
 	cands := map[string]bool{}
 	dgOfID := map[string]int{} // id -> index of the one datagram whose lines carry it (-1 = several)
@@ -215,21 +319,41 @@ func runRecv(em *hlib.Emitter, in input) {
 	ctx, cancel := context.WithCancel(stats.NewContext(context.Background(), st))
 	defer cancel()
 
-	conn, err := net.ListenPacket("udp", "127.0.0.1:0")
-	if err != nil {
-		fmt.Fprintln(os.Stderr, "c05 recv: listen:", err)
-		os.Exit(3)
+	var conn net.PacketConn
+	var script *scriptConn
+	port := 0
+	addrs := make([]net.Addr, len(msgs))
+	sources := make([]string, len(msgs))
+	var send func(i int) error
+	if scripted {
+		script = newScriptConn()
+		conn = script
+		for i := range msgs {
+			addrs[i], sources[i] = senderOf(froms[i], i)
+		}
+		send = func(i int) error { script.push(msgs[i], addrs[i]); return nil }
+	} else {
+		var err error
+		conn, err = net.ListenPacket("udp", "127.0.0.1:0")
+		if err != nil {
+			fmt.Fprintln(os.Stderr, "c05 recv: listen:", err)
+			os.Exit(3)
+		}
+		if uc, ok := conn.(*net.UDPConn); ok {
+			uc.SetReadBuffer(4 << 20)
+		}
+		port = conn.LocalAddr().(*net.UDPAddr).Port
+		cl, err := net.DialUDP("udp", nil, conn.LocalAddr().(*net.UDPAddr))
+		if err != nil {
+			fmt.Fprintln(os.Stderr, "c05 recv: dial:", err)
+			os.Exit(3)
+		}
+		defer cl.Close()
+		for i := range msgs {
+			sources[i] = "127.0.0.1"
+		}
+		send = func(i int) error { _, err := cl.Write([]byte(msgs[i])); return err }
 	}
-	if uc, ok := conn.(*net.UDPConn); ok {
-		uc.SetReadBuffer(4 << 20)
-	}
-	port := conn.LocalAddr().(*net.UDPAddr).Port
-	cl, err := net.DialUDP("udp", nil, conn.LocalAddr().(*net.UDPAddr))
-	if err != nil {
-		fmt.Fprintln(os.Stderr, "c05 recv: dial:", err)
-		os.Exit(3)
-	}
-	defer cl.Close()
 	sf := func() (net.PacketConn, error) { return conn, nil }
 
 	ch := make(chan []*statsd.Datagram) // unbuffered, as in statsd.Server
@@ -266,7 +390,7 @@ func runRecv(em *hlib.Emitter, in input) {
 	sendBefore := make([]int64, len(msgs))
 	problem := ""
 	quiet := 0
-	for i, m := range msgs {
+	for i := range msgs {
 		for end := time.Now().Add(stepTimeout); uint64(i)-received() >= maxUnread; {
 			if time.Now().After(end) {
 				problem = fmt.Sprintf("receiver stopped reading: %d of %d datagrams read", received(), i)
@@ -278,7 +402,7 @@ func runRecv(em *hlib.Emitter, in input) {
 			break
 		}
 		sendBefore[i] = time.Now().UnixNano()
-		if _, err := cl.Write([]byte(m)); err != nil {
+		if err := send(i); err != nil {
 			fmt.Fprintln(os.Stderr, "c05 recv: send:", err)
 			os.Exit(3)
 		}
@@ -296,7 +420,7 @@ func runRecv(em *hlib.Emitter, in input) {
 	if problem == "" {
 		for end := time.Now().Add(stepTimeout); received() < uint64(len(msgs)); {
 			if time.Now().After(end) {
-				if d := udpDrops(port); d != 0 {
+				if d := udpDrops(port); d != 0 && !scripted {
 					inconclusive = fmt.Sprintf("kernel dropped datagrams (drops=%d): %d of %d read", d, received(), len(msgs))
 				} else {
 					problem = fmt.Sprintf("receiver stopped reading: %d of %d datagrams read, no kernel drops", received(), len(msgs))
@@ -390,14 +514,21 @@ func runRecv(em *hlib.Emitter, in input) {
 	sort.Strings(tab)
 	sent := make([]string, len(msgs))
 	for i, m := range msgs {
-		sent[i] = hlib.Bytes(m)
+		sent[i] = hlib.Pair(hlib.Bytes(sources[i]), hlib.Bytes(m))
 	}
 	if problem == "" {
-		c.Coq = hlib.App("Recv", hlib.Bytes(in.NS), hlib.List(tab), hlib.Bytes("127.0.0.1"), hlib.List(sent),
+		c.Coq = hlib.App("Recv", hlib.Bytes(in.NS), hlib.List(tab), hlib.List(sent),
 			hlib.List(mapTerms), hlib.List(h.evText), hlib.App("Ctr", hlib.N(cm), hlib.N(ce), hlib.N(cb)))
 	}
 	batches := st.get("receiver.batches_read")
 	c.Nontrivial = len(msgs) >= 100 && batches > 0 && uint64(len(msgs)) > batches // some batch held several datagrams
+	if scripted {
+		distinct := map[string]bool{}
+		for _, f := range froms {
+			distinct[f] = true
+		}
+		c.Nontrivial = len(msgs) >= 50 && len(distinct) >= 5
+	}
 	em.Emit(c)
 }
 
@@ -438,12 +569,27 @@ func genRecv(r *hlib.Rand, tier string) input {
 	in := input{NS: hlib.Pick(r, namespaces), Scramble: r.U64(), Stream: "recv",
 		Readers: r.Range(1, 2), Parsers: r.Range(1, 2), Batch: hlib.Pick(r, []int{1, 2, 5, 10, 20, 50, 50}),
 		DelayUs: hlib.Pick(r, []int{0, 50, 100, 200, 400})}
+	var senders []string
+	if r.Bool() {
+		in.Sock = "script"
+		pool := []string{"udp=10.0.0.1", "udp=10.0.0.2", "udp=192.168.7.9", "udp=::1", "udp=2001:db8::1", "udp=2001:db8::2",
+			"udp=2001:db8:0:1::ff", "udp=fe80::1%eth0", "udp=fe80::1%eth1", "udp=fe80::abcd%lo", "mapped=10.0.0.1", "mapped=172.16.3.4",
+			"nilip", "ipaddr=10.1.1.1", "unix=weird", "udp=fd00::17", "udp=127.0.0.1"}
+		for k, n := 0, r.Range(6, 12); k < n; k++ {
+			senders = append(senders, hlib.Pick(r, pool))
+		}
+		// always several different real IPv6 senders next to IPv4 ones
+		senders = append(senders, "udp=2001:db8::1", "udp=fe80::1%eth0", "udp=::1", "udp=10.0.0.1", "mapped=10.0.0.1")
+	}
 	nb := r.Range(2, 3)
 	d := 0
 	for b := 0; b < nb; b++ {
 		nd := r.Range(60, 160)
 		if tier == "thorough" {
 			nd = r.Range(100, 600)
+		}
+		if in.Sock == "script" { // one datagram per batch: fewer of them, the senders are the point
+			nd = r.Range(30, 60)
 		}
 		if b > 0 {
 			in.QuietMs = append(in.QuietMs, r.Range(50, 300))
@@ -457,6 +603,9 @@ func genRecv(r *hlib.Rand, tier string) input {
 					l.End = 1
 					if k == nd-1 {
 						l.End = 2
+					}
+					if len(senders) > 0 {
+						l.From = hlib.Pick(r, senders)
 					}
 				}
 				in.Lines = append(in.Lines, l)
